@@ -257,7 +257,13 @@ def run(ctx):
     ctx.check(len(wcalls) == 1 and nl_ok and enclosing_conditions(wcalls[0], tw) == [], "R20.4", "TextWriter.write:newline",
               "the rendering is not written once followed by one newline", tw, "buf + b'\\n'")
     rr = ctx.anchor_func("flow.record.base.Record.__repr__")
-    ctx.check("self._desc.fields" in norm(rr) and "getattr(self, k)" in norm(rr), "R20.4", "Record.__repr__", "repr does not list every declared field", rr, "k=v for k in self._desc.fields")
+    # some loop / comprehension over self._desc.fields whose element reads getattr(self, <loop variable>)
+    rok = False
+    for g in [n for n in ast.walk(rr) if isinstance(n, (ast.comprehension, ast.For))]:
+        if norm(g.iter) in ("self._desc.fields", "self._desc.fields.keys()", "self._desc.get_all_fields()", "self.__slots__") and isinstance(g.target, ast.Name) and not getattr(g, "ifs", []):
+            scope = getattr(g, "_parent", None) if isinstance(g, ast.comprehension) else g
+            rok |= any(isinstance(c, ast.Call) and call_name(c) == "getattr" and len(c.args) >= 2 and norm(c.args[0]) == "self" and norm(c.args[1]) == g.target.id for c in ast.walk(scope))
+    ctx.check(rok, "R20.4", "Record.__repr__", "repr does not list every declared field", rr, "k=v for k in self._desc.fields")
 
 
 def _record_derived(recv, fn, prog=None, module=None) -> bool:
